@@ -8,7 +8,8 @@
    non-negativity needs art(0, .) = 0 (orthogonal mapping at R0): observation F9.
    (* FULL: forall x <> 0 vanishing on Dirichlet nodes, 0 < form all_nodes x x, for every geometry *) *)
 From Coq Require Import List ZArith Bool Reals.
-From GMGP Require Import Scalar ScalarR InterpDefs StencilDefs StencilProofs.
+From GMGP Require Import Scalar ScalarR InterpDefs StencilDefs StencilProofs StencilTie.
+From GMGPGen Require Import StencilGen.
 Import ListNotations.
 Local Open Scope R_scope.
 
@@ -42,5 +43,29 @@ Theorem C05_coefficients_discriminant : forall Jrr Jrt Jtr Jtt alpha : R,
   4 * arrJ Jrr Jrt Jtr Jtt alpha * attJ Jrr Jrt Jtr Jtt alpha - artJ Jrr Jrt Jtr Jtt alpha ^ 2 = alpha ^ 2.
 Proof. exact coefficients_discriminant. Qed.
 
+(* ---- the same two statements about the give kernel as translator T3 regenerates it from the source (gen/StencilGen.v):
+   gen_form nodes x y = sum over the nodes of  y(target) * (what NODE_APPLY_A_GIVE subtracts from result[target]) ---- *)
+Theorem C05_generated_operator_symmetric :
+  forall (nr nth : Z) (h k rad : Z -> R) (arr att art det : Z -> Z -> R) (beta : Z -> R) (dirbc : bool),
+  (4 <= nr)%Z -> (2 <= nth)%Z ->
+  forall (nodes : list (Z * Z)) (x y : Z -> Z -> R),
+  (forall p : Z * Z, In p nodes -> (0 <= fst p < nr)%Z /\ (0 <= snd p < nth)%Z) ->
+  vanishes_on_dirichlet nr dirbc x -> vanishes_on_dirichlet nr dirbc y ->
+  gen_form nr nth h k rad arr att art det beta dirbc nodes x y = gen_form nr nth h k rad arr att art det beta dirbc nodes y x.
+Proof. exact gen_form_symmetric. Qed.
+
+Theorem C05_generated_operator_positive_semidefinite_partial :
+  forall (nr nth : Z) (h k rad : Z -> R) (arr att art det : Z -> Z -> R) (beta : Z -> R) (dirbc : bool),
+  (4 <= nr)%Z -> (2 <= nth)%Z ->
+  (forall x : Z, 0 < h x) -> (forall x : Z, 0 < k x) -> 0 < rad 0%Z ->
+  (forall i j : Z, 0 < arr i j) -> (forall i j : Z, 0 < att i j) ->
+  (forall i j : Z, art i j ^ 2 <= 4 * arr i j * att i j) -> (forall i : Z, 0 <= beta i) ->
+  (dirbc = false -> forall j : Z, art 0%Z j = 0) ->
+  forall (nodes : list (Z * Z)) (x : Z -> Z -> R),
+  (forall p : Z * Z, In p nodes -> (0 <= fst p < nr)%Z /\ (0 <= snd p < nth)%Z) ->
+  vanishes_on_dirichlet nr dirbc x -> 0 <= gen_form nr nth h k rad arr att art det beta dirbc nodes x x.
+Proof. exact gen_form_nonneg. Qed.
+
 Print Assumptions C05_A_symmetric.
+Print Assumptions C05_generated_operator_symmetric.
 Print Assumptions C05_A_positive_semidefinite_partial.
